@@ -133,10 +133,11 @@ def _size(stmts: Sequence[ast.stmt]) -> int:
     return sum(1 for st in stmts for n in ast.walk(st) if isinstance(n, ast.stmt))
 
 
-def method_outcomes(repo: Repo, rel: str, cls: str, method: str, *, max_paths: int = 64) -> List[Outcome]:
+def method_outcomes(repo: Repo, rel: str, cls: str, method: str, *, max_paths: int = 64, inline_public: bool = False) -> List[Outcome]:
+    """inline_public: also inline small PUBLIC methods of the same class (by default only `_private` helpers are read through)"""
     fn = repo.func(rel, f'{cls}.{method}')
     own = {n: fs[-1] for n, fs in repo.methods(rel, cls).items()}
-    return block_outcomes(list(fn.body), own, f'{cls}.{method}', max_paths=max_paths, env0=module_constants(repo, rel))
+    return block_outcomes(list(fn.body), own, f'{cls}.{method}', max_paths=max_paths, env0=module_constants(repo, rel), inline_public=inline_public)
 
 
 def module_constants(repo: Repo, rel: str) -> Dict[str, ast.expr]:
@@ -169,7 +170,7 @@ def _conj(test: ast.expr, positive: bool) -> List[str]:
 
 
 def block_outcomes(body: Sequence[ast.stmt], own: Optional[Dict[str, Any]] = None, label: str = '<block>', *,
-                   max_paths: int = 64, env0: Optional[Dict[str, ast.expr]] = None) -> List[Outcome]:
+                   max_paths: int = 64, env0: Optional[Dict[str, ast.expr]] = None, inline_public: bool = False) -> List[Outcome]:
     """outcomes of a statement list (e.g. a loop body): results are return / raise / continue / break / fall."""
     own = own or {}
     cls, method = label, ''
@@ -255,7 +256,7 @@ def block_outcomes(body: Sequence[ast.stmt], own: Optional[Dict[str, Any]] = Non
             if isinstance(st, ast.Expr) and isinstance(st.value, ast.Call):
                 c = st.value
                 d = dotted(c.func)
-                if d.startswith('self.') and d.count('.') == 1 and d.split('.')[1] in own and d.split('.')[1].startswith('_') and depth < 4 \
+                if d.startswith('self.') and d.count('.') == 1 and d.split('.')[1] in own and (d.split('.')[1].startswith('_') or inline_public) and depth < 4 \
                         and _in_subset(own[d.split('.')[1]].body) and _size(own[d.split('.')[1]].body) <= 14:
                     # inline the private helper: bind its parameters, run its body, continue with the rest of this block
                     h = own[d.split('.')[1]]
